@@ -17,6 +17,7 @@ mod c06;
 mod c07;
 mod c08;
 mod c10;
+mod c11;
 mod c12;
 mod c13;
 mod c16;
@@ -56,6 +57,7 @@ fn main() {
         "C20" => { c20::cases(&mut ctx); c20::preds(&mut ctx); }
         "C19" => { c19::cases(&mut ctx); c19::preds(&mut ctx); }
         "C13" => { c13::cases(&mut ctx); c13::preds(&mut ctx); }
+        "C11" => { c11::cases(&mut ctx); c11::preds(&mut ctx); }
         "C12" => { c12::cases(&mut ctx); c12::preds(&mut ctx); }
         "C03" => { c03::cases(&mut ctx); c03::preds(&mut ctx); }
         _ => { eprintln!("unknown property {}", prop); std::process::exit(2); }
